@@ -332,9 +332,16 @@ def run(ctx):
     ctx.stream("num.decode", [f"num.decode {hx(b)}" for b in blobs])
     ctx.stream("num.tobool", [f"num.tobool {hx(b)}" for b in blobs])
     spec(ctx, "core.num.tobool", [f"corenum.tobool {hx(b)}" for b in blobs], lambda *_: "to_bool_vs_core")
-    tn = [f"{hx(b)} {rng.randrange(2)} {rng.choice([4, 4, 5, 0, 1, 8])}" for b in blobs]
+    tn = [f"{hx(b)} {rng.randrange(2)} {rng.choice([4, 4, 5, *range(11)])}" for b in blobs]
+    # 9-byte minimal encodings of values outside int64: `encode_num` inside `_to_num` refuses them
+    for v in (2**63, -(2**63) - 1, 2**64, 2**71 - 1, -(2**71) + 1, 2**63 - 1, -(2**63)):
+        for mx in (8, 9, 10):
+            tn.append(f"{hx(G.enc(v))} 1 {mx}")
+            tn.append(f"{hx(G.enc(v))} 0 {mx}")
     ctx.stream("num.tonum", ["num.tonum " + x for x in tn])
-    spec(ctx, "core.num.tonum", ["corenum.tonum " + x for x in tn], lambda *_: "to_num_vs_core")
+    # Core's CScriptNum is the specification up to 8 bytes (Props: to_num_is_CScriptNum, to_num_differs_at_nine_bytes)
+    spec(ctx, "core.num.tonum", ["corenum.tonum " + x for x in tn if int(x.split(" ")[2]) <= 8],
+         lambda *_: "to_num_vs_core")
     for b in blobs[: ctx.n(600)]:
         ctx.check("num.minimal", {"b": b.hex(), "max": rng.choice([4, 5])})
         ctx.check("bool.casttobool", {"b": b.hex()})
